@@ -125,6 +125,23 @@ func classify(tmp, good string, in injSpec, goodInfos int) string {
 func genBadDoc(r *Rng, id int, tier string) *Sx {
 	cfg := &genCfg{anp: r.P(30), banp: true, pods: true, ingress: r.P(20), namedOnIPPct: 0, maxNP: 3, maxWl: 4}
 	w := genWorld(r, cfg)
+	if r.P(15) {
+		// a genuinely fatal problem among the good documents (a conflict of C19): the analysis must fail, with or without
+		// injected documents, and never return a result
+		for _, o := range w.Objs {
+			if o.Kind == "np" && r.P(70) {
+				n := *o.Np
+				w.Objs = append(w.Objs, Obj{Kind: "np", Np: &n}) // two NetworkPolicies with one name in one namespace
+				break
+			}
+			if o.Kind == "anp" && r.P(70) {
+				n := *o.Anp
+				n.Name = "twin"
+				w.Objs = append(w.Objs, Obj{Kind: "anp", Anp: &n}) // two AdminNetworkPolicies with one priority
+				break
+			}
+		}
+	}
 	good := goodText(w)
 	tmp := filepath.Join(".", fmt.Sprintf("gen-tmp-%d-%d", os.Getpid(), id)) // cwd is the run's scratch directory
 	defer os.RemoveAll(tmp)
@@ -243,6 +260,10 @@ func execBadDoc(c *Sx, env *execEnv) (*Sx, []Violation) {
 	if fatal > 0 && (lerr == nil || conns != nil) {
 		rep("fatal-with-result", "Errors() holds a fatal entry but the call returned a result")
 	}
+	if !stop && !base.ok && lerr == nil {
+		// (d') the good documents alone are a fatal error: injected documents must not turn it into a result
+		rep("fatal-error-masked", "the good documents alone fail ("+base.errCls+"), with the injected documents the call returns a result")
+	}
 	if !stop {
 		// (a) irrelevant documents never change the computed connections
 		if base.rawSx.String() != res.String() {
@@ -278,6 +299,9 @@ func execBadDoc(c *Sx, env *execEnv) (*Sx, []Violation) {
 		}
 		if dfat > 0 && derr == nil {
 			rep("diff-fatal-with-result", "diff Errors() holds a fatal entry but the call returned a result")
+		}
+		if !stop && !base.ok && derr == nil {
+			rep("diff-fatal-error-masked", "one side alone is a fatal error ("+base.errCls+") but diff returns a result")
 		}
 		if !stop && base.ok {
 			if derr != nil {
